@@ -1,12 +1,12 @@
 import Sess.Basic
 open Sess
 /-!
-Driver of the session object model (C08/C01): one scenario per line, `<store>/<pin> <op,op,…>` with pins `none a x` and ops `Wa Wb Vbad Vgood V512 Close CloseRaw Cancel`
+Driver of the session object model (C08/C01): one scenario per line, `<store>/<pin> <op,op,…>` with pins `none a x` and ops `Wa Wb Vbad Vbad512 Vgood V512 Close CloseRaw Cancel`
 (harness/inpkg/store/upload_harness_test.go); prints the outcome of every call and whether the accepted bytes are
 published at the end: `<outs> pub=<0|1>`.
 -/
 def parseOp : String → Option Op
-  | "Wa" => some (.w 1) | "Wb" => some (.w 2) | "Vbad" => some .vbad | "Vgood" => some .vgood | "V512" => some .vgoodAlt | "Close" => some .close
+  | "Wa" => some (.w 1) | "Wb" => some (.w 2) | "Vbad" => some .vbad | "Vbad512" => some .vbadAlt | "Vgood" => some .vgood | "V512" => some .vgoodAlt | "Close" => some .close
   | "CloseRaw" => some .closeRaw | "Cancel" => some .cancel
   | _ => none
 
